@@ -16,6 +16,8 @@
      paint_arr sg t idx v  the array after seg[t][idx] = v *)
 From Coq Require Import ZArith List Bool.
 From FT Require Import Base.Dict Model.Edit Model.EditExec Proofs.EditInv Proofs.EditSeg Proofs.EditFresh Proofs.EditSegExample.
+From FT Require Proofs.EditWFEdge.
+From FT Require Gen.History_gen Proofs.HistoryGen Props.C02.
 Import ListNotations.
 Open Scope Z_scope.
 
@@ -78,6 +80,28 @@ Proof. exact iou_fresh_other. Qed.
 (* ---------- non-vacuity ---------- *)
 (* ex0 (Proofs/EditSegExample.v): frames  1 1 / 0 0 ,  2 2 / 3 0 ,  0 4 / 4 0 ; edges 1-2 (IoU 2/2),
    1-3 (0), 2-4 (1/3) *)
+(* ---- every state reachable by edge-level calls (add / delete edge with and without force, swap,
+        queries, fresh ids) from a well-formed state is well formed: WF includes W_seg (labels and
+        nodes in one-to-one correspondence) and W_fresh (every active regionprops feature is the value
+        of the current mask, every IoU the overlap of the current masks).  Induction over the call
+        list, no bound on its length. ---- *)
+Theorem C09_run_edge_calls : forall ops st,
+  forallb EditWFEdge.edge_fragment ops = true -> WF st -> WF (run st ops).
+Proof. exact EditWFEdge.run_edge_WF. Qed.
+
+(* ---- undo / redo: the history mechanism this property quantifies over (Tracks.undo / redo,
+        ActionHistory) is, in the model, the code translated on every run from the current
+        actions/action_history.py (Gen/History_gen.v); C02_timeline states what it guarantees ---- *)
+Theorem C09_history_is_generated : forall st a dA,
+  (let h := fst (FT.Gen.History_gen.add_new_action state action (FT.Proofs.HistoryGen.to_hist st) a st) in
+   undo_stack (hist_add st a) = FT.Gen.History_gen.undo_stack _ _ h /\ redo_stack (hist_add st a) = FT.Gen.History_gen.redo_stack _ _ h) /\
+  (let gr := FT.Gen.History_gen.undo state action FT.Proofs.HistoryGen.inv_total dA (FT.Proofs.HistoryGen.to_hist st) in
+   match undo st with
+   | Ok b s' => snd gr = b /\ undo_stack s' = FT.Gen.History_gen.undo_stack _ _ (fst gr) /\ redo_stack s' = FT.Gen.History_gen.redo_stack _ _ (fst gr)
+   | Err _ _ => True
+   end).
+Proof. exact FT.Props.C02.C02_edit_machine_uses_generated. Qed.
+
 Example C09_ex0_fresh :
   seg ex0 = Some sg0 /\ iou_act (ft ex0) = true /\ iou_fresh ex0 /\ W_seg ex0 /\ nodes_sane ex0 sg0 /\ edges_sane ex0 /\
   edge ex0 2 4 /\ iou_of ex0 sg0 2 4 = VIou 1 3 /\ iou_of ex0 sg0 1 3 = VIou 0 1.
@@ -113,3 +137,5 @@ Print Assumptions C09_add_edge_value.
 Print Assumptions C09_fresh_upd_seg.
 Print Assumptions C09_fresh_add_node.
 Print Assumptions C09_fresh_other.
+Print Assumptions C09_run_edge_calls.
+Print Assumptions C09_history_is_generated.
